@@ -144,6 +144,9 @@ macro_rules! serde_types {
             "FlatOuter" => $f::<FlatOuter>($a), "FlatDeep" => $f::<FlatDeep>($a), "FlatChar" => $f::<FlatChar>($a), "FlatUnit" => $f::<FlatUnit>($a),
             "ITag" => $f::<ITag>($a), "ITagChar" => $f::<ITagChar>($a), "ATag" => $f::<ATag>($a),
             "Untagged" => $f::<Untagged>($a), "UntaggedUnit" => $f::<UntaggedUnit>($a), "UntaggedChar" => $f::<UntaggedChar>($a),
+            "Record" => $f::<Record>($a), "AllSkip" => $f::<AllSkip>($a), "Event" => $f::<Event>($a), "Holder" => $f::<Holder>($a),
+            "vec_record" => $f::<Vec<Record>>($a), "tup_record_u8" => $f::<(Record, u8)>($a), "vec_event" => $f::<Vec<Event>>($a),
+            "tup_allskip_event_u8" => $f::<(AllSkip, Event, u8)>($a), "opt_record" => $f::<Option<Record>>($a),
             "OptOpt" => $f::<OptOpt>($a), "vec_itag" => $f::<Vec<ITag>>($a), "vec_untagged" => $f::<Vec<Untagged>>($a),
             _ => "bad-op".to_string()
         })
